@@ -111,10 +111,17 @@ pub open spec fn set_status_shape(a: Seq<Effect>, b: Seq<Effect>, cluster: bool,
     &&& ext(a, b) && added(a, b) >= 1 && (at(a, b, 0) matches Effect::StatusSet(s, _) && s == status)
     &&& delta(a, b, Kind::StatusSet) == 1
     &&& delta(a, b, Kind::PgLeaveAll) == (if exits { 1int } else { 0int }) && delta(a, b, Kind::PgDemonitorAll) == (if exits { 1int } else { 0int })
-    &&& delta(a, b, Kind::UnregisterName) == (if exits && named { 1int } else { 0int })
     &&& delta(a, b, Kind::UnregisterPid) == (if exits && cluster { 1int } else { 0int }) && delta(a, b, Kind::DemonitorPid) == (if exits && cluster { 1int } else { 0int })
     &&& delta(a, b, Kind::NotifyStop) == (if stops { 1int } else { 0int }) && (stops ==> b.last() == Effect::NotifyStop)
     &&& delta(a, b, Kind::RegisterName) == 0 && delta(a, b, Kind::RegisterPid) == 0 && delta(a, b, Kind::NewProps) == 0
+}
+/// C10: only a cell that was enrolled in the name registry -- a LOCAL actor with a name (ActorCell::new); a remote-actor proxy merely
+/// carries the name of its origin (ActorCell::new_remote never registers it) -- releases that name, and exactly on its exit transition
+pub open spec fn enrolled(id: ActorId, name: Option<ActorName>) -> bool { name is Some && id is Local }
+pub open spec fn releases_name_iff_enrolled(a: Seq<Effect>, b: Seq<Effect>, id: ActorId, name: Option<ActorName>, status: ActorStatus) -> bool {
+    let p = prev_seen(a, b);
+    let exits = status as u8 >= 5 && (p as u8) < 5;
+    delta(a, b, Kind::UnregisterName) == (if exits && enrolled(id, name) { 1int } else { 0int })
 }
 pub open spec fn prev_seen(old_s: Seq<Effect>, new_s: Seq<Effect>) -> ActorStatus {
     if old_s.len() < new_s.len() { match new_s[old_s.len() as int] { Effect::StatusSet(_, p) => p, _ => ActorStatus::Unstarted } } else { ActorStatus::Unstarted }
